@@ -151,7 +151,9 @@ def run(ctx):
     for case, ob in zip(cases, obs2):
         key0 = dict(dtype=case['dtype'], shape=case['shape'])
         if isinstance(ob, dict):
-            ctx.fail('harness-error', key0, observed=ob); continue
+            # a child interpreter killed by a signal (SIGSEGV / SIGBUS) while reading results it was handed
+            # is an observation about Darr (a result that still pointed into the memory map), not about the harness
+            ctx.fail('interpreter-died-on-returned-data' if ob.get('runner_died') and (ob.get('returncode') or 0) < 0 else 'harness-error', key0, observed=ob); continue
         for acc, o in zip(case['accesses'], ob[:-1]):
             key = dict(key0, access=acc)
             if acc['k'] == 'mode':
@@ -201,7 +203,9 @@ def run(ctx):
     for case, ob in zip(W, ctx.run_impl(W, 'warnerr')):
         key = dict(scenario='warnings are errors, description from a newer library version', **case)
         if isinstance(ob, dict):
-            ctx.fail('harness-error', key, observed=ob); continue
+            # a child interpreter killed by a signal (SIGSEGV / SIGBUS) while reading results it was handed
+            # is an observation about Darr (a result that still pointed into the memory map), not about the harness
+            ctx.fail('interpreter-died-on-returned-data' if ob.get('runner_died') and (ob.get('returncode') or 0) < 0 else 'harness-error', key, observed=ob); continue
         ctx.seen(key); ctx.count('warnerr')
         for st in ob:
             ctx.evaluations += 1
